@@ -212,6 +212,42 @@ def main():
             raise ValueError("FormatterToText::characters no longer tests chars[i] > m_maxCharacter")
         text_reports = "canTranscodeTo(" in ftt_chars and "UnrepresentableCharacterException(" in ftt_chars
         raw_consumers, raw_setters, raw_marker = raw_flag_facts()
+        # the loops over a run of UTF-16 code units in the writers: after a decoded surrogate pair the index must be
+        # advanced past the low surrogate
+        def member_body(text, signature_re):
+            m = re.search(signature_re, text)
+            if not m:
+                raise ValueError("writer member %s not found" % signature_re)
+            k = text.index("{", m.end())
+            depth, e = 0, k
+            while e < len(text):
+                if text[e] == "{":
+                    depth += 1
+                elif text[e] == "}":
+                    depth -= 1
+                    if depth == 0:
+                        break
+                e += 1
+            return norm(text[k + 1:e])
+        u8 = strip_comments(open(os.path.join(XMLS, "XalanUTF8Writer.hpp"), encoding="utf-8", errors="replace").read())
+        pair_then_inc = "decodeUTF16SurrogatePair(theChars[i],theChars[i+1],getMemoryManager()));++i;"
+        pair_no_inc = "decodeUTF16SurrogatePair(theChars[i],theChars[i+1],getMemoryManager()));"
+        facts_u8 = {}
+        for key, sig in (("bulk", r"\bwrite\s*\(\s*const\s+XalanDOMChar\s*\*\s*theChars\s*,\s*size_type\s+theLength\s*\)"),
+                         ("safe", r"\bwriteSafe\s*\(\s*const\s+XalanDOMChar\s*\*\s*theChars\s*,\s*size_type\s+theLength\s*\)")):
+            b = member_body(u8, sig)
+            b = b.replace("decodeUTF16SurrogatePair(ch,theChars[i+1]", "decodeUTF16SurrogatePair(theChars[i],theChars[i+1]")
+            if "for(size_typei=0;i<theLength;++i)" not in b or pair_no_inc not in b:
+                raise ValueError("XalanUTF8Writer %s loop has an unknown shape" % key)
+            facts_u8[key] = pair_then_inc in b
+        ow = strip_comments(open(os.path.join(XMLS, "XalanOtherEncodingWriter.hpp"), encoding="utf-8", errors="replace").read())
+        ob = member_body(ow, r"\bwrite\s*\(\s*const\s+XalanDOMChar\s*\*\s*theChars\s*,\s*size_type\s+theLength\s*\)")
+        if ob == "for(size_typei=0;i<theLength;++i){write(theChars[i]);}":
+            other_bulk_pairs = False
+        elif "m_charRefFunctor" in ob and "write(theChars[i])" not in ob:
+            other_bulk_pairs = True
+        else:
+            raise ValueError("XalanOtherEncodingWriter::write(chars, n) has an unknown shape")
         # FormatterToHTML::cdata: the HTML output method has no CDATA sections
         fth = strip_comments(open(os.path.join(XMLS, "FormatterToHTML.cpp"), encoding="utf-8", errors="replace").read())
         hc = [norm(b) for c_, n_, b in cpp_functions(fth) if (c_, n_) == ("FormatterToHTML", "cdata")]
@@ -288,6 +324,11 @@ def main():
     out.append("/-- FormatterListener::s_piTarget / s_piData -/")
     out.append("def rawMarkerTargetSrc : List Nat := %s" % raw_marker[0])
     out.append("def rawMarkerDataSrc : List Nat := %s" % raw_marker[1])
+    out.append("/-- XalanUTF8Writer: `++i` follows the write of a decoded surrogate pair in write(chars, n) / writeSafe -/")
+    out.append("def utf8BulkAdvances : Bool := %s" % str(facts_u8["bulk"]).lower())
+    out.append("def utf8SafeAdvances : Bool := %s" % str(facts_u8["safe"]).lower())
+    out.append("/-- XalanOtherEncodingWriter::write(chars, n) treats a surrogate pair as one character -/")
+    out.append("def otherBulkPairs : Bool := %s" % str(other_bulk_pairs).lower())
     out.append("/-- FormatterToHTML::cdata writes its characters as text (escaped, raw only inside script/style) -/")
     out.append("def htmlCdataIsText : Bool := %s" % str(html_cdata_is_text).lower())
     out.append("/-- XSLTEngineImpl::charactersRaw / cdata / characters (ch, start, length) pass ch + start to the listener -/")
@@ -297,7 +338,8 @@ def main():
     out.append("end XalanModel.Generated.C08")
     import json as _json
     os.makedirs(common.CACHE, exist_ok=True)
-    _json.dump({"htmlCdataIsText": html_cdata_is_text, "engineRawUsesStart": eng_raw_start,
+    _json.dump({"utf8BulkAdvances": facts_u8["bulk"], "utf8SafeAdvances": facts_u8["safe"], "otherBulkPairs": other_bulk_pairs,
+                "htmlCdataIsText": html_cdata_is_text, "engineRawUsesStart": eng_raw_start,
                 "engineCdataUsesStart": eng_cdata_start, "engineCharactersUsesStart": eng_chars_start},
                open(os.path.join(common.CACHE, "c08_facts.json"), "w"))
     txt = "\n".join(out) + "\n"
